@@ -190,6 +190,15 @@ func runC19(c *fw.Case) {
 	if extra.Sign() > 0 {
 		spec.Accounts = []chain.GenAccount{{Account: authtypes.NewBaseAccount(whale.Addr, nil, 0, 0), Coins: sdk.NewCoins(sdk.NewCoin(mintDenom, sdk.NewIntFromBigInt(extra)))}}
 	}
+	if extra.Sign() > 0 && c.R.Intn(6) == 0 {
+		// part of the supply rests on the minter's own module account (a genesis balance, or what
+		// a distributor configured to pay that module account has sent there): coins the
+		// emission neither counts nor touches
+		parked := new(big.Int).Add(new(big.Int).Rand(c.R, extra), big.NewInt(1))
+		spec.Accounts = append(spec.Accounts, chain.GenAccount{Account: authtypes.NewEmptyModuleAccount(minttypes.ModuleName, authtypes.Minter, authtypes.Burner, authtypes.Staking),
+			Coins: sdk.NewCoins(sdk.NewCoin(mintDenom, sdk.NewIntFromBigInt(parked)))})
+		c.Count("cases_with_coins_parked_on_the_minter_account", 1)
+	}
 	n, err := chain.NewNode(spec)
 	if err != nil {
 		c.Inconclusive("node: %v", err)
